@@ -140,6 +140,29 @@ def match_spans(offs, mod_tree, m):
     return (a[0], b[1])
 
 
+def paren_edge(src, region, span, mod_tree, m):
+    """Does rope's region differ from the instance's extent only by the parentheses around
+    the expression of a first / last expression statement?  (C08: the region of an
+    expression statement leaves them out.)"""
+    if m["n"] == 0 or region == span:
+        return False
+    if not (span[0] <= region[0] <= region[1] <= span[1]):
+        return False
+    head, tail = src[span[0]:region[0]], src[region[1]:span[1]]
+    if head.strip(" \t\n(") or tail.strip(" \t\n)"):
+        return False
+    blk = pt.at(mod_tree, m["bp"])
+    first = blk["c"][m["i"] - 1]
+    last = blk["c"][m["i"] + m["n"] - 2]
+    if head and first["k"] != "Expr":
+        return False
+    if tail and last["k"] != "Expr":
+        return False
+    if m["n"] == 1 and head.count("(") != tail.count(")"):
+        return False
+    return head.count("(") + tail.count(")") > 0
+
+
 def norm_dump(text):
     try:
         return ast.dump(ast.parse(text))
@@ -168,10 +191,13 @@ def outside_preserved(src, spans, result):
     return result.endswith(gaps[-1]) and len(result) - len(gaps[-1]) >= at
 
 
-def verbatim_substitution(src, offs, mod_tree, beh, goal_text, order):
+def verbatim_substitution(src, offs, mod_tree, beh, goal_text, order, override=None):
     """Text obtained by pasting the bound source text into the goal text with no
-    parentheses added - only used to *classify* a failure, never as the oracle."""
+    parentheses added (continuation lines indented like the instance's line) -
+    only used to *classify* a failure, never as the oracle.  override: expected
+    span -> the region rope reported for that instance."""
     import re
+    override = override or {}
     pat = beh["pat"]
     matches = {(tuple(m["bp"]), m["i"]): m for m in beh["matches"]}
 
@@ -227,10 +253,17 @@ def verbatim_substitution(src, offs, mod_tree, beh, goal_text, order):
     pos = 0
     for m in order:
         s, e = match_spans(offs, mod_tree, m)
+        s, e = override.get((s, e), (s, e))
         if s < pos:
             continue
         out.append(src[pos:s])
-        out.append(replaced(m))
+        text = replaced(m)
+        line_start = src.rfind("\n", 0, s) + 1
+        indent = len(src[line_start:s]) - len(src[line_start:s].lstrip(" ")) if beh["stmtpat"] else \
+            len(src[line_start:]) - len(src[line_start:].lstrip(" "))
+        lines = text.split("\n")
+        text = "\n".join([lines[0]] + [(" " * indent + ln if ln.strip() else ln) for ln in lines[1:]])
+        out.append(text)
         pos = e
     out.append(src[pos:])
     return "".join(out)
@@ -283,10 +316,18 @@ def _run_behaviour(beh):
     except Exception as e:  # noqa
         found = None
         fail("MatchCrash", exc=type(e).__name__, msg=str(e)[:120])
+    override = {}
     if found is not None:
         got = {}
         for fm in found:
-            got[tuple(fm.get_region())] = fm
+            reg = tuple(fm.get_region())
+            for sp, m in expected.items():
+                if paren_edge(src, reg, sp, mod_tree, m):
+                    override[sp] = reg
+                    fail("MatchRegion", cause="expr-statement-parentheses", region=list(reg), instance=list(sp))
+                    reg = sp
+                    break
+            got[reg] = fm
         for sp in sorted(set(got) - set(expected)):
             fail("MatchSound", region=list(sp), text=src[sp[0]:sp[1]])
         for sp in sorted(set(expected) - set(got)):
@@ -301,15 +342,21 @@ def _run_behaviour(beh):
             rspan = pt.tree_span(offs, pt.at(mod_tree, r["r"]))
             want = sorted(match_spans(offs, mod_tree, m2) for m2 in
                           [dict(bp=x["bp"], i=x["i"], n=(0 if x["i"] == 0 else beh["focus"]["n"])) for x in r["ms"]])
+            back = {v: k for k, v in override.items()}
             try:
-                have = sorted(tuple(x.get_region()) for x in
+                have = sorted(back.get(tuple(x.get_region()), tuple(x.get_region())) for x in
                               finder.get_matches(pattern, args, start=rspan[0], end=rspan[1]))
             except Exception as e:  # noqa
                 fail("RegionCrash", exc=type(e).__name__)
                 continue
             stats["regions"] += 1
             if have != want:
-                fail("Region", region=list(rspan), want=want, have=have)
+                # an instance whose reported region lost a leading parenthesis may fall in / out of the region
+                lost = [sp for sp in override if (sp in want) != (sp in have)]
+                if lost and sorted(set(have) ^ set(want)) == sorted(lost):
+                    fail("Region", cause="expr-statement-parentheses", region=list(rspan))
+                else:
+                    fail("Region", region=list(rspan), want=want, have=have)
 
     # ---- restructuring
     def outer_first(m):
@@ -364,24 +411,39 @@ def _run_behaviour(beh):
                 if not outside_preserved(src, outer, result):
                     fail("OutsideText", api=api, goal=g["id"], result=result)
                 continue
-            # classify the deviation (the key of a finding must name its cause)
-            cause = "other"
+            # classify the deviation (the key of a finding must name its cause): the result is
+            # explained when it is what pasting the bound text verbatim gives - for all instances
+            # (expression patterns) or for the instances the spec's model of rope's statement
+            # mechanism applies - and the spec's flags say why that differs from Rewrite
+            causes = set()
             if beh["stmtpat"] and rtree is not None and rtree == g["mech"] and (beh["orderskip"] or beh["elifhit"]):
-                # the spec's step-by-step model of rope's statement replacement predicts exactly this result
-                cause = "+".join(n for n, on in (("instance-skipped-by-visiting-order", beh["orderskip"]),
-                                                 ("elif-arm-detached", beh["elifhit"])) if on)
-            elif result == src and g["res"] != beh["mod"]:
-                cause = "not-replaced-at-all"
+                causes |= {n for n, on in (("instance-skipped-by-visiting-order", beh["orderskip"]),
+                                           ("elif-arm-detached", beh["elifhit"])) if on}
+            elif result == src and g["res"] != beh["mod"] and not beh["stmtpat"]:
+                causes.add("not-replaced-at-all")
             else:
-                vt = verbatim_substitution(src, offs, mod_tree, beh, gtext, order)
-                same_as_verbatim = (result == vt) or (norm_dump(result) is not None and norm_dump(result) == norm_dump(vt))
-                if same_as_verbatim and (g["bpar"] or g["gpar"]):
-                    cause = "pasted-without-parentheses"
-                elif same_as_verbatim and beh["mlb"]:
-                    cause = "multiline-binding-pasted-without-its-parentheses"
-            fail("Meaning" if rtree is not None else "Parses", api=api, goal=g["id"], cause=cause,
-                 stmtpat=beh["stmtpat"], result=result,
-                 bpar=sorted(map(tuple, g["bpar"])), gpar=sorted(map(tuple, g["gpar"])))
+                acc = {(tuple(x["bp"]), x["i"]) for x in beh["accepted"]}
+                mech_order = [m for m in order if (tuple(m["bp"]), m["i"]) in acc] if beh["stmtpat"] else order
+                rd = norm_dump(result)
+                for use_override in ((False, True) if override else (False,)):
+                    vt = verbatim_substitution(src, offs, mod_tree, beh, gtext, mech_order,
+                                               override if use_override else None)
+                    if result == vt or (rd is not None and rd == norm_dump(vt)):
+                        if beh["stmtpat"] and beh["orderskip"]:
+                            causes.add("instance-skipped-by-visiting-order")
+                        if beh["stmtpat"] and beh["elifhit"]:
+                            causes.add("elif-arm-detached")
+                        if g["bpar"] or g["gpar"]:
+                            causes.add("pasted-without-parentheses")
+                        if beh["mlb"]:
+                            causes.add("multiline-binding-pasted-without-its-parentheses")
+                        if use_override:
+                            causes.add("expr-statement-parentheses")
+                        break
+            for cause in sorted(causes) or ["other"]:
+                fail("Meaning" if rtree is not None else "Parses", api=api, goal=g["id"], cause=cause,
+                     stmtpat=beh["stmtpat"], result=result,
+                     bpar=sorted(map(tuple, g["bpar"])), gpar=sorted(map(tuple, g["gpar"])))
     return {"fails": fails, "stats": stats, "src": src, "pattern": pattern,
             "args": args, "beh_digest": common.digest([beh["mod"], beh["pat"], beh["deco"]])}
 
@@ -410,7 +472,7 @@ def run_tlc(job, put):
     res = tlc.run("MC_PyMatch", cfg, on_tagged=on_beh, collect_tags=False,
                   workers=(1 if nsim else 4), simulate=({"num": nsim} if nsim else None),
                   depth=(6 if nsim else None), seed=(1000 * common.SEED + k + 1 if nsim else None),
-                  coverage=(tier == "quick" and not nsim), java_opts=("-Xmx4g",))
+                  java_opts=("-Xmx4g",))
     os.unlink(cfg)
     return name, res, count[0]
 
@@ -487,10 +549,8 @@ def main(tier):
                 return 2
             print("MACHINERY-FAILURE property=%s TLC: %s\n%s" % (PROP, res.error, res.tail))
             return 2
-        if res.coverage:
-            for a in ("AddStmt", "Abstract"):
-                if a in res.coverage and res.coverage[a][1] == 0:
-                    verdict.machinery_failure("action %s never taken" % a)
+        if nb == 0:      # vacuity guard: every run must reach Abstract (which needs AddStmt before it)
+            verdict.machinery_failure("TLC run %s exported no behaviour" % name)
     sens = None
     if tier == "thorough":
         sens = sensitivity()
